@@ -455,7 +455,23 @@ func (c *Client) Tx(ctx context.Context, hash []byte, prove bool) (*ctypes.Resul
 	}
 
 	// Validate the proof.
-	return res, res.Proof.Validate(l.DataHash)
+	if err := validateTxProof(res, l); err != nil {
+		return nil, err
+	}
+	return res, nil
+}
+
+// validateTxProof checks the inclusion proof against the verified data hash and that the
+// transaction, hash and index reported next to it are the ones the proof is about.
+func validateTxProof(res *ctypes.ResultTx, l *types.LightBlock) error {
+	if err := res.Proof.Validate(l.DataHash); err != nil {
+		return err
+	}
+	if !bytes.Equal(res.Tx, res.Proof.Data) || !bytes.Equal(res.Hash, res.Tx.Hash()) ||
+		int64(res.Index) != res.Proof.Proof.Index {
+		return errors.New("transaction, hash or index do not match the inclusion proof")
+	}
+	return nil
 }
 
 func (c *Client) TxSearch(
